@@ -9,7 +9,7 @@ Specs (written from the format text): `field`/`fieldInt` (fixed columns, blank =
 Main theorems: `_to_int_blank`, `_to_int_ok`, `parseInt_pyStrInt`; `_parse_atom_value_assignments_eq/_ok/_reject`;
 `_merge_tuples_into_additional_attributes_eq/_ok`, `_clear_atom_attribute_ok/_get?`,
 `_merge_atom_attributes_and_additional_attributes_eq/_ok`; `_parse_attribute_block_eq/_ok/_reject`,
-`_parse_attribute_block_render_ok/_noEnd/_badAtom`, `specGet_mass/_chg/_rad/_other`; `_parse_atom_line_ok`,
+`_parse_attribute_block_render_ok/_noEnd/_badAtom`, `specGet_mass/_mass_of_isotope_symbol/_chg/_rad/_other`; `_parse_atom_line_ok`,
 `_parse_bond_line_eq/_ok/_reject`; `graph_attributes_from_molfile_v2000_eq/_ok`.
 -/
 import Generated.V2000
@@ -325,30 +325,32 @@ theorem _clear_atom_attribute_ok (env : DepEnv) (key : String) (atoms : Dict Int
   rw [this]
   simp [clearAttr]
 
-/-- the non-zero entries of a property dict ("0 means not set") -/
-def nonzero (a : Attrs) : List (String × Val) := a.items.filter (fun p => decide (p.2 ≠ Val.int 0))
+/-- the entries of the collected property dict `a` that take effect on an atom whose atom-block attributes
+are `old`: 0 means "not set", and an isotope entry never replaces a mass that is already there (it stems
+from the symbol D or T) -/
+def nonzero (old a : Attrs) : List (String × Val) :=
+  a.items.filter (fun p => decide (p.2 ≠ Val.int 0) && !(decide (p.1 = "mass") && old.contains "mass"))
 
 /-- what `_merge_atom_attributes_and_additional_attributes` does to one atom -/
 def mergeAtom (add : Dict Int Attrs) (p : Int × Attrs) : Attrs :=
   match add.get? p.1 with
-  | some extra => p.2.update (Dict.ofPairs (nonzero extra))
+  | some extra => p.2.update (Dict.ofPairs (nonzero p.2 extra))
   | none => p.2
 
 def mergeAdd (atoms add : Dict Int Attrs) : Dict Int Attrs :=
   ⟨atoms.items.map (fun p => (p.1, mergeAtom add p))⟩
 
-theorem filterMap_nonzero (l : List (String × Val)) :
-    l.filterMap (fun x => if pyNe x.2 (0 : Int) = true then some (x.1, x.2) else none) =
-      l.filter (fun p => decide (p.2 ≠ Val.int 0)) := by
+theorem filterMap_nonzero (old : Attrs) (l : List (String × Val)) :
+    l.filterMap (fun x => if (pyNe x.2 (0 : Int) && !(decide (x.1 = "mass") && Dict.contains old "mass")) = true
+        then some (x.1, x.2) else none) =
+      l.filter (fun p => decide (p.2 ≠ Val.int 0) && !(decide (p.1 = "mass") && old.contains "mass")) := by
   induction l with
   | nil => rfl
   | cons p l ih =>
     have : pyNe p.2 (0 : Int) = decide (p.2 ≠ Val.int 0) := by
       simp [pyNe, PyCmp.eq]
     simp only [List.filterMap_cons, List.filter_cons, this, ih]
-    by_cases h : p.2 = Val.int 0
-    · simp [h]
-    · simp [h]
+    cases (decide (p.2 ≠ Val.int 0) && !(decide (p.1 = "mass") && Dict.contains old "mass")) <;> simp
 
 theorem _merge_atom_attributes_and_additional_attributes_eq (env : DepEnv) (atoms add : Dict Int Attrs)
     (hwf : WF atoms) :
@@ -359,8 +361,10 @@ theorem _merge_atom_attributes_and_additional_attributes_eq (env : DepEnv) (atom
     (fun x r => if add.contains x.1 = true then do
               let __do_lift ← getItem add x.1
               let __do_lift ←
-                listComp __do_lift.items fun x =>
-                    if pyNe x.2 (0 : Int) = true then Except.ok (some (x.1, x.2)) else Except.ok none
+                listComp __do_lift.items fun x_1 =>
+                    if (pyNe x_1.2 (0 : Int) && !(decide (x_1.1 = "mass") && Dict.contains x.2 "mass")) = true then
+                      Except.ok (some (x_1.1, x_1.2))
+                    else Except.ok none
               Except.ok (ForInStep.yield (r.set x.1 (Dict.update x.2 (Dict.ofPairs __do_lift))))
             else (Except.ok (ForInStep.yield r) : M _))
     (fun p => add.contains p.1) (mergeAtom add) (fun p _ r => by
@@ -371,7 +375,8 @@ theorem _merge_atom_attributes_and_additional_attributes_eq (env : DepEnv) (atom
       | some extra =>
         have hc : add.contains p.1 = true := by simp [Dict.contains, h]
         simp only [hc, if_true, getItem_dict_int, h, Py.ok_bind, mergeAtom]
-        rw [listComp_ok _ _ (fun x => if pyNe x.2 (0 : Int) = true then some (x.1, x.2) else none)
+        rw [listComp_ok _ _ (fun x => if (pyNe x.2 (0 : Int) && !(decide (x.1 = "mass") && Dict.contains p.2 "mass")) = true
+            then some (x.1, x.2) else none)
           (fun x _ => by split <;> rfl)]
         simp only [Py.ok_bind, filterMap_nonzero]
         rfl)
@@ -485,15 +490,15 @@ theorem lookup_map_snd {κ ν : Type} [DecidableEq κ] (l : List (κ × ν)) (f 
     · have : (a == x) = false := by simpa using h
       simp [List.lookup_cons, this, ih]
 
-theorem nodup_keys_nonzero (e : Attrs) (h : WF e) : ((nonzero e).map Prod.fst).Nodup :=
+theorem nodup_keys_nonzero (old e : Attrs) (h : WF e) : ((nonzero old e).map Prod.fst).Nodup :=
   List.Nodup.sublist (List.Sublist.map _ List.filter_sublist) h
 
-/-- `_merge_atom_attributes_and_additional_attributes` for one atom: zero values are dropped,
-non-zero values override -/
+/-- `_merge_atom_attributes_and_additional_attributes` for one atom: zero values are dropped, a collected
+mass is dropped if the atom already has a mass, the other collected values override -/
 theorem mergeAtom_get? (add : Dict Int Attrs) (hadd : InnerWF add) (a : Int) (old : Attrs) (k : String) :
     (mergeAtom add (a, old)).get? k =
       match dget add a k with
-      | some v => if v = Val.int 0 then old.get? k else some v
+      | some v => if v = Val.int 0 ∨ (k = "mass" ∧ (old.get? "mass").isSome = true) then old.get? k else some v
       | none => old.get? k := by
   unfold mergeAtom dget
   cases h : add.get? a with
@@ -501,13 +506,16 @@ theorem mergeAtom_get? (add : Dict Int Attrs) (hadd : InnerWF add) (a : Int) (ol
   | some extra =>
     have hw := hadd _ _ h
     simp only [Option.bind_some]
-    rw [get?_update _ _ (wf_ofPairs _), get?_ofPairs _ (nodup_keys_nonzero _ hw)]
+    rw [get?_update _ _ (wf_ofPairs _), get?_ofPairs _ (nodup_keys_nonzero _ _ hw)]
     unfold nonzero
     rw [lookup_filter _ hw]
     show ((extra.get? k).filter _).or _ = _
+    rw [contains_eq_isSome]
     cases extra.get? k with
     | none => simp
-    | some v => by_cases hv : v = Val.int 0 <;> simp [Option.filter, hv]
+    | some v =>
+      by_cases hv : v = Val.int 0 <;> by_cases hk : k = "mass" <;>
+        cases hm : (old.get? "mass").isSome <;> simp [Option.filter, hv, hk, hm]
 
 theorem mergeAtom_wf (add : Dict Int Attrs) (p : Int × Attrs) (h : WF p.2) : WF (mergeAtom add p) := by
   unfold mergeAtom
@@ -554,14 +562,15 @@ theorem _clear_atom_attribute_get? (env : DepEnv) (key : String) (atoms : Dict I
   refine ⟨old.erase key, by rw [clearAttr_get?, h]; rfl, fun k => get?_erase old key k⟩
 
 /-- **item 3c**: contract of `_merge_atom_attributes_and_additional_attributes` at lookup level: zero values
-are dropped, non-zero values override, everything else is unchanged -/
+are dropped, a collected mass is dropped when the atom already carries a mass (symbols D and T), the other
+non-zero values override, everything else is unchanged -/
 theorem _merge_atom_attributes_and_additional_attributes_ok (env : DepEnv) (atoms add : Dict Int Attrs)
     (hwf : WF atoms) (hadd : InnerWF add) :
     ∃ r, _merge_atom_attributes_and_additional_attributes env atoms add = .ok r ∧ r.keys = atoms.keys ∧
       ∀ a old, atoms.get? a = some old →
         ∃ new, r.get? a = some new ∧ ∀ k, new.get? k =
           match dget add a k with
-          | some v => if v = Val.int 0 then old.get? k else some v
+          | some v => if v = Val.int 0 ∨ (k = "mass" ∧ (old.get? "mass").isSome = true) then old.get? k else some v
           | none => old.get? k := by
   refine ⟨mergeAdd atoms add, _merge_atom_attributes_and_additional_attributes_eq env atoms add hwf,
     mergeAdd_keys atoms add, ?_⟩
@@ -638,13 +647,20 @@ def kindOfKey (k : String) : Option Kind :=
   if k = "chg" then some .chg else if k = "rad" then some .rad else if k = "mass" then some .iso else none
 
 /-- **the spec of the property block**, attribute by attribute: the value of attribute `k` of atom `a`
-after the block, given its attributes `old` from the atom block. -/
+after the block, given its attributes `old` from the atom block.
+* A mass that the atom block already gives (the symbols D and T denote hydrogen-2 and hydrogen-3) is kept,
+  whatever the `M  ISO` entries say.
+* Otherwise the last entry for this atom in the lines of the kind that sets `k` (CHG ↦ chg, RAD ↦ rad,
+  ISO ↦ mass) gives the value, unless it is 0 (0 = "not set") or there is no such entry; then the value
+  from the atom block stays — except that any CHG or RAD line discards the atom-block `chg` and `rad`. -/
 def specGet (pl : List (Kind × List (Int × Int))) (a : Int) (old : Attrs) (k : String) : Option Val :=
   let fromAtomBlock : Option Val :=
     if supersedes pl = true ∧ (k = "chg" ∨ k = "rad") then none else old.get? k
-  match (kindOfKey k).bind (fun K => lastWins (entriesOf pl K) a) with
-  | some v => if v = 0 then fromAtomBlock else some (Val.int v)
-  | none => fromAtomBlock
+  if k = "mass" ∧ (old.get? "mass").isSome = true then old.get? "mass"
+  else
+    match (kindOfKey k).bind (fun K => lastWins (entriesOf pl K) a) with
+    | some v => if v = 0 then fromAtomBlock else some (Val.int v)
+    | none => fromAtomBlock
 
 /-- functional model of what the code computes (order of keys included) -/
 def collectAdd (pl : List (Kind × List (Int × Int))) : Dict Int Attrs :=
@@ -715,39 +731,50 @@ theorem applyProps_get? (pl : List (Kind × List (Int × Int))) (atoms : Dict In
     (h : atoms.get? a = some old) :
     ∃ new, (applyProps pl atoms).get? a = some new ∧ (WF old → WF new) ∧
       ∀ k, new.get? k = specGet pl a old k := by
+  have hval : ∀ v : Int, v ≠ 0 → Val.int v ≠ Val.int 0 := by
+    intro v hv e; injection e with e; injection e with e; exact hv e
   unfold applyProps
   rw [mergeAdd_get?]
   by_cases hs : supersedes pl = true
   · simp only [hs, if_true, clearAttr_get?, h, Option.map_some]
     refine ⟨_, rfl, fun hw => mergeAtom_wf _ (a, _) (wf_erase _ _ (wf_erase _ _ hw)), fun k => ?_⟩
-    rw [mergeAtom_get? _ (innerWF_collectAdd pl), dget_collectAdd, get?_erase, get?_erase]
+    rw [mergeAtom_get? _ (innerWF_collectAdd pl), dget_collectAdd]
+    simp only [get?_erase]
     unfold specGet
     simp only [hs, true_and]
-    cases (kindOfKey k).bind (fun K => lastWins (entriesOf pl K) a) with
-    | none =>
-      simp only [Option.map_none]
-      by_cases h1 : k = "rad" <;> by_cases h2 : k = "chg" <;> simp [h1, h2]
-    | some v =>
-      simp only [Option.map_some]
-      by_cases hv : v = 0
-      · subst hv
+    by_cases hm : k = "mass" ∧ (old.get? "mass").isSome = true
+    · obtain ⟨rfl, hm⟩ := hm
+      cases (kindOfKey "mass").bind (fun K => lastWins (entriesOf pl K) a) <;> simp [hm]
+    · have hm' : ¬ (k = "mass" ∧ (if "mass" = "rad" then none else if "mass" = "chg" then none
+          else old.get? "mass").isSome = true) := by simpa using hm
+      rw [if_neg hm]
+      cases (kindOfKey k).bind (fun K => lastWins (entriesOf pl K) a) with
+      | none =>
+        simp only [Option.map_none]
         by_cases h1 : k = "rad" <;> by_cases h2 : k = "chg" <;> simp [h1, h2]
-      · have : Val.int v ≠ Val.int 0 := by intro e; injection e with e; injection e with e; exact hv e
-        simp [hv, this]
+      | some v =>
+        simp only [Option.map_some]
+        by_cases hv : v = 0
+        · subst hv
+          by_cases h1 : k = "rad" <;> by_cases h2 : k = "chg" <;> simp [h1, h2]
+        · simp only [hval v hv, hm', or_self, if_false, hv]
   · have hs' : supersedes pl = false := by simpa using hs
     simp only [hs', Bool.false_eq_true, if_false, h, Option.map_some]
     refine ⟨_, rfl, fun hw => mergeAtom_wf _ (a, _) hw, fun k => ?_⟩
     rw [mergeAtom_get? _ (innerWF_collectAdd pl), dget_collectAdd]
     unfold specGet
     simp only [hs', Bool.false_eq_true, false_and, if_false]
-    cases (kindOfKey k).bind (fun K => lastWins (entriesOf pl K) a) with
-    | none => rfl
-    | some v =>
-      simp only [Option.map_some]
-      by_cases hv : v = 0
-      · subst hv; simp
-      · have : Val.int v ≠ Val.int 0 := by intro e; injection e with e; injection e with e; exact hv e
-        simp [hv, this]
+    by_cases hm : k = "mass" ∧ (old.get? "mass").isSome = true
+    · obtain ⟨rfl, hm⟩ := hm
+      cases (kindOfKey "mass").bind (fun K => lastWins (entriesOf pl K) a) <;> simp [hm]
+    · rw [if_neg hm]
+      cases (kindOfKey k).bind (fun K => lastWins (entriesOf pl K) a) with
+      | none => rfl
+      | some v =>
+        simp only [Option.map_some]
+        by_cases hv : v = 0
+        · subst hv; simp
+        · simp only [hval v hv, hm, or_self, if_false, hv]
 
 /-! ### items 1 (first half) and 2 (general form): `_to_int` and `_parse_atom_value_assignments` read the columns -/
 
@@ -1831,23 +1858,45 @@ theorem specGet_other (pl : List (Kind × List (Int × Int))) (a : Int) (old : A
     (h1 : k ≠ "chg") (h2 : k ≠ "rad") (h3 : k ≠ "mass") : specGet pl a old k = old.get? k := by
   simp [specGet, kindOfKey, h1, h2, h3]
 
-/-- isotope masses: a non-zero `M  ISO` entry for this very atom (the last one, if several) sets the mass;
-otherwise the mass from the atom block (D ↦ 2, T ↦ 3) stays — whatever CHG/RAD/ISO lines there are -/
+/-- isotope masses: a mass that the atom block already gives (D ↦ 2, T ↦ 3) stays, whatever CHG/RAD/ISO lines
+there are; an atom without one gets the non-zero `M  ISO` entry for this very atom (the last one, if
+several; 0 = not set) -/
 theorem specGet_mass (pl : List (Kind × List (Int × Int))) (a : Int) (old : Attrs) :
     specGet pl a old "mass" =
-      match lastWins (entriesOf pl .iso) a with
-      | some v => if v = 0 then old.get? "mass" else some (Val.int v)
-      | none => old.get? "mass" := by
-  simp [specGet, kindOfKey]
+      match old.get? "mass" with
+      | some m => some m
+      | none =>
+        match lastWins (entriesOf pl .iso) a with
+        | some v => if v = 0 then none else some (Val.int v)
+        | none => none := by
+  cases h : old.get? "mass" <;> simp [specGet, kindOfKey, h]
   all_goals (cases lastWins (entriesOf pl .iso) a <;> rfl)
+
+/-- **D and T keep denoting hydrogen-2 and hydrogen-3 whatever the property lines say**: a mass given by the
+atom block is the mass after the property block — unconditionally -/
+theorem specGet_mass_of_isotope_symbol (pl : List (Kind × List (Int × Int))) (a : Int) (old : Attrs) (v : Val)
+    (h : old.get? "mass" = some v) : specGet pl a old "mass" = some v := by
+  rw [specGet_mass, h]
+
+/-- an atom without a mass from the atom block: the last `M  ISO` entry for this atom, 0 = not set -/
+theorem specGet_mass_of_no_isotope_symbol (pl : List (Kind × List (Int × Int))) (a : Int) (old : Attrs)
+    (h : old.get? "mass" = none) :
+    specGet pl a old "mass" =
+      match lastWins (entriesOf pl .iso) a with
+      | some v => if v = 0 then none else some (Val.int v)
+      | none => none := by
+  rw [specGet_mass, h]
 
 theorem specGet_mass_kept (pl : List (Kind × List (Int × Int))) (a : Int) (old : Attrs)
     (h : ∀ v, lastWins (entriesOf pl .iso) a = some v → v = 0) :
     specGet pl a old "mass" = old.get? "mass" := by
   rw [specGet_mass]
-  cases hl : lastWins (entriesOf pl .iso) a with
-  | none => rfl
-  | some v => simp [h v hl]
+  cases ho : old.get? "mass" with
+  | some m => rfl
+  | none =>
+    cases hl : lastWins (entriesOf pl .iso) a with
+    | none => rfl
+    | some v => simp [h v hl]
 
 /-- charges: with any CHG or RAD line in the block the atom-block charge is discarded -/
 theorem specGet_chg (pl : List (Kind × List (Int × Int))) (a : Int) (old : Attrs) :
@@ -1869,7 +1918,10 @@ theorem specGet_rad (pl : List (Kind × List (Int × Int))) (a : Int) (old : Att
 /-- no property lines: nothing changes -/
 theorem specGet_nil (a : Int) (old : Attrs) (k : String) : specGet [] a old k = old.get? k := by
   unfold specGet
-  cases kindOfKey k <;> simp [supersedes, entriesOf, lastWins_nil]
+  by_cases hm : k = "mass" ∧ (old.get? "mass").isSome = true
+  · rw [if_pos hm, hm.1]
+  · rw [if_neg hm]
+    cases kindOfKey k <;> simp [supersedes, entriesOf, lastWins_nil]
 
 theorem hydrogenIsotope_D : hydrogenIsotope py!"D" = (py!"H", 2) := by decide
 theorem hydrogenIsotope_T : hydrogenIsotope py!"T" = (py!"H", 3) := by decide
